@@ -1554,12 +1554,14 @@ func cacheStress(seed int64) string {
 
 func main() {
 	mode := flag.String("mode", "corr", "corr|free|strat|cnc|scan|cstress")
-	site := flag.String("site", "legacy", "scan: dopen|readdir|gitignore|stat|fopen|extract, or legacy (walkcase.MemFS, every Open slow)")
+	site := flag.String("site", "legacy", "scan: dopen|readdir|gitignore|stat|fopen|extract, multiroot (several roots, slow logger), or legacy (walkcase.MemFS, every Open slow)")
 	smode := flag.String("scanmode", "tree", "scan: tree|paths")
 	o := hx.Parse()
 	if *mode == "scan" {
 		if *site == "legacy" {
 			scanOnce(o.Seed)
+		} else if *site == "multiroot" {
+			scanMultiRoot(o.Seed)
 		} else {
 			scanSite(o.Seed, *site, *smode)
 		}
